@@ -439,14 +439,22 @@ func (c *client) hasEntriesRemaining() bool {
 			return true
 		}
 	}
+	// The read loop stops when this returns false. Mark it as stopped within the same critical
+	// section: otherwise an Execute that registers its entry before the loop clears the flag on
+	// its way out sees a loop that is "running", starts none, and waits forever for its result.
+	c.readLoopRunning = false
 	return false
 }
 
 func (c *client) executeReadLoop(cborReader *cbor.Decoder) {
+	stoppedWhenIdle := false // True once hasEntriesRemaining marked this loop as stopped.
 	defer func() {
 		c.mutex.Lock()
 		defer c.mutex.Unlock()
-		c.readLoopRunning = false
+		if !stoppedWhenIdle {
+			// Do not clear the flag again after an idle stop; a newer read loop may own it by now.
+			c.readLoopRunning = false
+		}
 		c.wg.Done()
 	}()
 	// Loop and get all messages
@@ -481,6 +489,7 @@ func (c *client) executeReadLoop(cborReader *cbor.Decoder) {
 		}
 		// The non-error exit condition is having no more entries remaining.
 		if !c.hasEntriesRemaining() {
+			stoppedWhenIdle = true
 			return
 		}
 	}
